@@ -185,6 +185,8 @@ func pinnedC13() []*pgen.Case {
 		mk("pin_unicode_field_mismatch", "// goverter:converter\ntype Converter interface {\n\tM(source Eingabe) Ausgabe\n}\ntype Eingabe struct{ Name string; Größe string }\ntype Ausgabe struct{ Name string; Größe int }\n"),
 		mk("pin_unicode_nested_mismatch", "// goverter:converter\ntype Converter interface {\n\tM(source Eingabe) Ausgabe\n}\ntype Eingabe struct{ Ä struct{ 日本語のフィールド名前 []map[string]string } }\ntype Ausgabe struct{ Ä struct{ 日本語のフィールド名前 []map[string]int } }\n"),
 		mk("pin_unicode_type_names", "// goverter:converter\ntype Converter interface {\n\tM(source Größe) Maß\n}\ntype Größe struct{ Ünïcödé string }\ntype Maß struct{ Ünïcödé chan int }\n"),
+		mk("pin_unsafe_update_zero", "import \"unsafe\"\n\n// goverter:converter\n// goverter:update:ignoreZeroValueField\ntype Converter interface {\n\t// goverter:update target\n\tM(source In, target *Out)\n}\ntype In struct{ U uintptr; P unsafe.Pointer; C complex128; E error; F func(); Ch chan int; A any }\ntype Out struct{ U uintptr; P unsafe.Pointer; C complex128; E error; F func(); Ch chan int; A any }\n", "-g", "skipCopySameType"),
+		mk("pin_unsafe_update_zero_basic", "import \"unsafe\"\n\n// goverter:converter\n// goverter:update:ignoreZeroValueField:basic\ntype Converter interface {\n\t// goverter:update target\n\tM(source *In, target *Out)\n}\ntype In struct{ U uintptr; P unsafe.Pointer; C complex64; B bool }\ntype Out struct{ U uintptr; P unsafe.Pointer; C complex64; B bool }\n"),
 		mk("pin_generic_iface", "// goverter:converter\ntype Converter[T any] interface {\n\tM(source int) int\n\tN(T) T\n}\n"),
 		mk("pin_automap_dot", "// goverter:converter\ntype Converter interface {\n\t// goverter:autoMap .Name\n\tM(source In) Out\n}\ntype In struct{ Name string }\ntype Out struct{ Name string }\n"),
 		mk("pin_automap_dot2", "// goverter:converter\ntype Converter interface {\n\t// goverter:autoMap .\n\tM(source In) Out\n}\ntype In struct{ Name string }\ntype Out struct{ Name string }\n"),
